@@ -1,9 +1,11 @@
 """C04 — cross-chain transactions are delivered and executed exactly once, in order (spec/EtxRoute.tla)."""
-import json, re, shutil, collections
+import json, os, re, shutil, collections
+from concurrent.futures import ThreadPoolExecutor
 from pathlib import Path
 import vlib
 from vlib import Broken
 import zonechain as zc
+import hier
 
 ETX_MUTATIONS = {"swap-inbound-etxs", "drop-all-inbound-etxs", "drop-first-inbound-etx", "alter-inbound-etx-value", "unknown-inbound-etx",
                  "duplicate-inbound-etx", "drop-outbound-etx", "alter-outbound-etx-value", "extra-outbound-etx", "etx-set-root", "outbound-etx-hash"}
@@ -28,11 +30,140 @@ def validate_etx_trace(ctx, tag, tr):
     raise Broken("EtxRouteTrace failed: %s\n%s" % (t.violated, (t.error or t.out)[-2500:]))
 
 
+# ------------------------------------------------------------------------------------------------------------------
+# Several subordinate chains (spec/EtxRouteMulti.tla, harness/cmd/routedrv): the deployed topology has one region and
+# one zone, so the confirmation walk over blocks of OTHER subordinate chains, FilterToSub between several destinations,
+# CollectSubRollup and the rollup cache are bound at function level, on a real region / prime Slice over a database
+# that holds synthetic dominant block trees.
+
+MULTI_INVARIANTS = ("AtMostOnce", "OnlyAtDestination", "NoneLost", "NotEarly", "OnlyViaPrime", "OrderFixedByDom", "RequeryStable")
+# emit configurations: every one is a design run (all invariants of EtxRouteMulti on every reachable state) whose
+# complete behaviours are printed for the replay
+MULTI_QUICK = ["region_emit3", "region_emit4", "prime_emit3"]
+MULTI_THOROUGH = MULTI_QUICK + ["prime_emit4", "region_t4", "region_t5", "prime_t4", "prime3_t4"]
+
+
+def multi_validate_trace(ctx, level, tag, text):
+    t = vlib.tlc(ctx, "EtxRouteMultiTrace", "EtxRouteMultiTrace_%s.cfg" % level, workers=1, timeout=3000, tag="RouteTrace-" + tag,
+                 files={"routetrace.ndjson": text})
+    if t.ok:
+        return None
+    if t.violated == "StepConforms":
+        txt = t.out[t.out.rfind("mismatch = ") + len("mismatch = "):]
+        txt = re.sub(r"\s+", " ", re.split(r"\n/\\ |\n\n", txt, 1)[0])
+        k = re.match(r"<<\s*(\d+),\s*\"([\w-]+)\"", txt)
+        return {"line": int(k.group(1)) if k else 0, "what": k.group(2) if k else "?", "detail": txt[:1500]}
+    if t.violated in MULTI_INVARIANTS:
+        m = re.findall(r"\nl = (\d+)", t.out)
+        return {"line": int(m[-1]) - 1 if m else 0, "what": t.violated, "detail": "invariant %s is false on the logged deliveries" % t.violated}
+    raise Broken("EtxRouteMultiTrace failed: %s\n%s" % (t.violated, (t.error or t.out)[-2500:]))
+
+
+def multi_layer(ctx, cov):
+    quick = ctx.quick
+    drv = vlib.go_build("routedrv")
+    cfgs = MULTI_QUICK if quick else MULTI_THOROUGH
+    # the specification with the loop's cache write keyed by the child (what seeded/C04-subrollup-cache-key does to the code)
+    # must violate CacheCoherent: guards the cache model against drifting into something that cannot see such a slip
+    lead = vlib.tlc(ctx, "MCEtxRouteMulti", "MCEtxRouteMulti_region_lead.cfg", workers=4, timeout=1200)
+    if lead.violated not in ("CacheCoherent", "CacheTransparent", "WalkIsDefined"):
+        raise Broken("lead configuration (cache keyed by the child) no longer yields a counterexample: %s %s" % (lead.violated, (lead.error or "")[-800:]))
+
+    def one(c):
+        if c == "elig":
+            return c, vlib.tlc_must_pass(ctx, "MCEtxEligible", "MCEtxEligible_emit.cfg", workers=2, timeout=1200, heap="2g")
+        return c, vlib.tlc_must_pass(ctx, "MCEtxRouteMulti", "MCEtxRouteMulti_%s.cfg" % c, workers=5 if quick else 8,
+                                     timeout=1800 if quick else 7200, seed=ctx.seed, heap="3g" if quick else "6g")
+    with ThreadPoolExecutor(max_workers=4 if quick else 2) as ex:
+        runs = list(ex.map(one, ["elig"] + cfgs))
+    elig = runs[0][1]
+    runs = runs[1:]
+    # ETX eligibility bits (spec/EtxEligible.tla): every history of <= 3 updates / checks on the real header-chain functions
+    eb = ctx.work / "elig-beh.ndjson"
+    eb.write_text("\n".join(elig.printed) + "\n")
+    er = ctx.work / "elig-res.json"
+    vlib.run([drv, "elig", "-in", eb, "-out", er], timeout=900, check=True)
+    ej = json.loads(er.read_text())
+    if ej["behaviours"] != len(elig.printed) or ej["behaviours"] < 1000:
+        raise Broken("eligibility replay ran %d of %d behaviours" % (ej["behaviours"], len(elig.printed)))
+    for m in ej["mismatches"] or []:
+        vlib.report(ctx, {"kind": "etx-eligibility-vs-spec", "op": m["op"]}, {"layer": "EtxEligible behaviour on UpdateEtxEligibleSlices / CheckIfEtxIsEligible", "mismatch": m})
+    cov.update(eligibility_behaviours_replayed=ej["behaviours"], eligibility_steps_compared=ej["steps"], eligibility_model_states=elig.distinct)
+    beh = ctx.work / "route-beh.ndjson"
+    nlines, models = 0, {}
+    with open(beh, "w") as f:
+        for c, r in runs:
+            models[c] = {"distinct": r.distinct, "generated": r.generated, "behaviours": len(r.printed), "wall_s": round(r.wall, 1)}
+            vlib.log("TLC EtxRouteMulti %s: %d distinct, %d behaviours, %.0fs" % (c, r.distinct, len(r.printed), r.wall))
+            if len(r.printed) < 1000:
+                raise Broken("EtxRouteMulti %s printed only %d behaviours" % (c, len(r.printed)))
+            for line in r.printed:
+                f.write(line + "\n")
+            nlines += len(r.printed)
+    res = ctx.work / "route-res.json"
+    p = vlib.run([drv, "replay", "-in", beh, "-out", res], timeout=3000 if quick else 10800)
+    if p.returncode != 0:
+        raise Broken("routedrv replay failed (%d): %s\n%s" % (p.returncode, p.stdout[-1500:], p.stderr[-2500:]))
+    rj = json.loads(res.read_text())
+    if rj["behaviours"] != nlines or rj["cold_collects"] < 1000 or rj["overlap_collects"] < 1000 or rj["fromdom"] < 1000 or rj["etxs_delivered"] < 10000:
+        raise Broken("routedrv replay covered too little: %s" % {k: v for k, v in rj.items() if k != "mismatches"})
+    for m in rj["mismatches"] or []:
+        vlib.report(ctx, {"kind": "multi-route-vs-spec", "ctx": m["ctx"], "op": m["op"].split("-o")[0], "regime": m["regime"], "class": m["class"]},
+                    {"layer": "EtxRouteMulti behaviour replayed on the real region/prime Slice", "mismatch": {k: m[k] for k in m if k != "behaviour"},
+                     "behaviour": m["behaviour"]})
+    # code -> spec: larger seeded trees, validated by EtxRouteMultiTrace
+    traces, events, tdeliv, tsamples = 0, 0, 0, []
+    plans = [("region", 1, 70, 2), ("prime", 0, 70, 2)] if quick else \
+            [(lv, c, 130, 3) for lv, c in (("region", 1), ("prime", 0)) for _ in range(4)]
+    def trace_one(arg):
+        i, (level, c, nblocks, ntrees) = arg
+        seed = ctx.seed * 1000 + i
+        tr = ctx.work / ("routetrace-%s-%d.ndjson" % (level, i))
+        p = vlib.run([drv, "random", "-seed", seed, "-ctx", c, "-blocks", nblocks, "-trees", ntrees, "-trace", tr], timeout=1800)
+        if p.returncode != 0:
+            raise Broken("routedrv random failed (%d): %s\n%s" % (p.returncode, p.stdout[-1500:], p.stderr[-2500:]))
+        return seed, level, c, vlib.read_ndjson(tr), multi_validate_trace(ctx, level, "%s-%d" % (level, i), tr.read_text())
+    with ThreadPoolExecutor(max_workers=4) as ex:
+        results = list(ex.map(trace_one, enumerate(plans)))
+    for seed, level, c, rows, mm in results:
+        if mm is None:
+            traces += 1
+        else:
+            ev = rows[mm["line"] - 1] if 0 < mm["line"] <= len(rows) else {}
+            vlib.report(ctx, {"kind": "multi-trace", "ctx": c, "what": mm["what"]},
+                        {"layer": "routedrv random trace validated by EtxRouteMultiTrace", "seed": seed, "level": level, "mismatch": mm, "event": ev})
+        adds = [r for r in rows if r["op"] == "add"]
+        events += len(rows)
+        tdeliv += sum(len(r["deliver"]) for r in adds)
+        if len(tsamples) < 2:
+            tsamples += [{k: r[k] for k in ("b", "p", "loc", "order", "exp", "man", "inb", "deliver")} for r in adds if len(r["deliver"]) >= 2][:1]
+    if tdeliv < 100:
+        raise Broken("random route traces delivered only %d ETXs" % tdeliv)
+    cov.update(multi_models=models, multi_states=sum(m["distinct"] for m in models.values()),
+               multi_behaviours_replayed=rj["behaviours"], multi_observations_compared=rj["steps"],
+               multi_collect_calls=rj["collects"], multi_cold_collect_calls=rj["cold_collects"], multi_overlapping_collect_calls=rj["overlap_collects"],
+               multi_restarts=rj["restarts"], multi_fromdom=rj["fromdom"], multi_subrollup_calls=rj["subrollups"], multi_filtertosub_calls=rj["filters"],
+               multi_etxs_delivered=rj["etxs_delivered"], multi_lead_cache_key=lead.violated,
+               multi_traces_validated=traces, multi_trace_events=events, multi_trace_etxs_delivered=tdeliv, multi_trace_samples=tsamples or [{"note": "none"}])
+    return traces
+
+
 def run(ctx):
     quick = ctx.quick
+    # development switch: VERIF_C04_LAYERS=multi (or chain) runs one half only and writes no evidence
+    layers = os.environ.get("VERIF_C04_LAYERS", "chain,multi,hier").split(",")
+    cov = {}
+    multi_traces = 0
+    if "hier" in layers:
+        # the hierarchy itself: three block trees, termini, previous-coincidence reference check, manifests (spec/Hier.tla on the real node)
+        hier.run_layer(ctx, cov)
+    if "multi" in layers:
+        multi_traces = multi_layer(ctx, cov)
+    if "chain" not in layers:
+        vlib.log("VERIF_C04_LAYERS=%s: partial run, no evidence written" % ",".join(layers))
+        return
     drv = vlib.go_build("chaindrv")
     dbdir = zc.scratch(ctx)
-    cov = {}
     try:
         d = vlib.tlc_must_pass(ctx, "EtxRoute", "MCEtxRoute_small.cfg" if quick else "MCEtxRoute_big.cfg", workers=16, timeout=3000 if quick else 7200)
         cov.update(states=d.distinct, transitions=d.generated, tlc_depth=d.depth)
@@ -93,8 +224,8 @@ def run(ctx):
         rejected = sum(v for (m, r), v in outcomes.items() if r.startswith("rejected"))
         if delivered == 0 or executed == 0 or rejected < 8:
             raise Broken("too little ETX activity: delivered=%d executed=%d adversarial rejections=%d" % (delivered, executed, rejected))
-        cov.update(traces_validated_against_impl=validated, blocks_checked=events, etxs_delivered=delivered, etxs_executed=executed,
-                   adversarial_outcomes={"%s -> %s" % k: v for k, v in sorted(outcomes.items())}, samples=samples or [{"note": "none"}],
+        cov.update(traces_validated_against_impl=validated + multi_traces, blocks_checked=events, etxs_delivered=delivered, etxs_executed=executed,
+                   adversarial_outcomes={"%s -> %s" % k: v for k, v in sorted(outcomes.items())}, samples=(samples + [x for x in cov.get("multi_trace_samples", []) if "b" in x]) or [{"note": "none"}],
                    rule="real prime/region/zone node at expansion 0 with forks at every level: for every appended block (any branch) the inbound set made "
                         "available by the dominant chain, the executed inbound ETXs and the destination queue read from the state committed by EtxSetRoot "
                         "must equal what EtxRoute.tla derives from the block tree (orders + emissions); ETX identity/value/recipient compared with the "
@@ -104,7 +235,9 @@ def run(ctx):
         shutil.rmtree(dbdir, ignore_errors=True)
     zc.check_aborted(ctx)
     vlib.write_evidence(ctx, "model_checking", cov, [
-        "single subordinate chain per level (deployed topology): routing between several zones/regions is covered by the model only",
+        "end to end (mining, state processing, queue) only on the deployed topology with a single subordinate chain per level; with several subordinate chains the "
+        "confirmation walk, FilterToSub, CollectSubRollup and the rollup cache are bound at function level on synthetic dominant block trees (orders seeded through the "
+        "calc-order cache); the region's cross-prime filter inside Append, ETX eligibility bits and multi-zone execution are not bound",
         "the minimum-inclusion rule is gas based; the trace check only demands 'queue emptied or >= 5 ETXs executed'",
         "queue in isolation: pushes of 1, 2 and 300 ETXs (index growth past one byte), <= 5 operations per history",
     ])
